@@ -2,24 +2,6 @@
 // abstraction function, well-formedness and simulation measure for the real Tokenizer
 // (hand-written specification; mentions only fields of the extracted struct)
 // ======================================================================================
-// ---- character-reference sub-tokenizer: abstract state = its fields ----
-pub struct AbsCr {
-    pub state: CrState,
-    pub in_attr: bool,
-    pub num: u32,
-    pub too_big: bool,
-    pub seen_digit: bool,
-    pub hex_marker: Option<char>,
-    pub name: Option<Seq<char>>,
-    pub name_match: Option<(u32, u32)>,
-    pub name_len: int,
-}
-/// phase 1: the character-reference sub-machine is specified in charref.spec.rs
-pub uninterp spec fn cr_step(a: AbsTok, c: char) -> AbsTok;
-pub open spec fn cr_new(in_attr: bool) -> AbsCr {
-    AbsCr { state: CrState::Begin, in_attr, num: 0, too_big: false, seen_digit: false, hex_marker: None,
-            name: None, name_match: None, name_len: 0 }
-}
 pub open spec fn abs_attrs(v: Seq<Attribute>) -> Seq<AbsAttr> {
     Seq::new(v.len(), |i: int| AbsAttr { name: v[i].name.local@, value: v[i].value@ })
 }
@@ -30,10 +12,30 @@ pub open spec fn abs_doctype(d: Doctype) -> AbsDoctype {
     AbsDoctype { name: abs_opt(d.name), public_id: abs_opt(d.public_id), system_id: abs_opt(d.system_id), force_quirks: d.force_quirks }
 }
 impl CharRefTokenizer {
+    /// abstraction: the saturated reference code stands for (num, num_too_big); name_match / name_len are
+    /// bookkeeping described by wf(), not part of the abstract state
     pub closed spec fn abs(&self) -> AbsCr {
-        AbsCr { state: self.state, in_attr: self.is_consumed_in_attribute, num: self.num, too_big: self.num_too_big,
-                seen_digit: self.seen_digit, hex_marker: self.hex_marker, name: abs_opt(self.name_buf_opt),
-                name_match: self.name_match, name_len: self.name_len as int }
+        AbsCr { state: self.state,
+                val: if self.num_too_big || self.num > 0x10FFFF { 0x110000int } else { self.num as int },
+                seen_digit: self.seen_digit, hex_marker: self.hex_marker,
+                name: match self.name_buf_opt { Some(t) => t@, None => Seq::<char>::empty() } }
+    }
+    pub closed spec fn in_attr(&self) -> bool { self.is_consumed_in_attribute }
+    /// representation invariant of the character-reference tokenizer
+    #[verifier::opaque]
+    pub closed spec fn wf(&self) -> bool {
+        let name = self.abs().name;
+        // the accumulator cannot have wrapped while the overflow latch is still clear
+        &&& (!self.num_too_big ==> self.num <= 0x10FFFF + 15)
+        &&& (self.state is Named || self.state is BogusName ==> self.name_buf_opt is Some)
+        &&& (self.state is Begin ==> self.name_len == 0 && self.name_match is None)
+        &&& (self.state is Named ==> ent_prefix(name)
+                && self.name_len as int == longest_match(name, name.len() as int)
+                && (self.name_len == 0 ==> self.name_match is None)
+                && (self.name_len > 0 ==> self.name_match == ent_value(name.take(self.name_len as int))))
+        &&& (self.state is BogusName ==> forall|i: int| 0 <= i < name.len() ==> spec_alnum(#[trigger] name[i]) || name[i] == ';')
+        &&& (self.state matches CrState::Numeric(b) ==> (b == 10 && self.hex_marker is None)
+                || (b == 16 && self.hex_marker is Some && (self.hex_marker.unwrap() == 'x' || self.hex_marker.unwrap() == 'X')))
     }
 }
 pub open spec fn abs_cr_opt(o: Option<CharRefTokenizer>) -> Option<AbsCr> {
@@ -105,6 +107,15 @@ impl Tokenizer {
         // character is that line break
         &&& (self.ignore_lf.v && (self.state.v is MarkupDeclarationOpen || self.state.v is AfterDoctypeName) ==> self.temp_buf.v@.len() == 0)
         &&& (self.ignore_lf.v ==> self.current_char.v == '\n')
+        // while a character reference is being consumed: no CR is pending (the '&' was the last character read),
+        // its tokenizer is well-formed and knows whether the return state is an attribute value state
+        &&& self.cr_ok()
+    }
+    pub closed spec fn cr_ok(&self) -> bool {
+        match self.char_ref_tokenizer.v {
+            Some(t) => t.wf() && !self.ignore_lf.v && t.in_attr() == (self.state.v is AttributeValue),
+            None => true,
+        }
     }
     /// the BOM flag is still set only while nothing has been consumed
     pub closed spec fn fresh(&self) -> bool { self.discard_bom.v ==> !self.ignore_lf.v && !self.reconsume.v }
